@@ -28,16 +28,20 @@ Theorem C03_string_length_is_utf16_units : forall s cs,
 Proof. exact go_utf16Length_strict. Qed.
 Print Assumptions C03_string_length_is_utf16_units.
 
-(* The gap of the structural scan (the code as it is): it accepts byte strings that are not
-   UTF-8 and emits them under the string tags, which a strict peer rejects. *)
-Theorem C03_string_tag_refuted :
-  exists s, go_utf16Length s = 1%Z /\ strict_utf8 s = false /\
-            tok_ok (snd (enc_string true einit s)) = false.
-Proof. exact string_tag_refuted. Qed.
-Print Assumptions C03_string_tag_refuted.
+(* Go's utf16Length decides strict UTF-8: every other byte string gets -1 and is written as bytes. *)
+Theorem C03_utf16Length_decides_utf8 : forall s,
+  go_utf16Length s = match str_chars s with Some cs => Z.of_N (units cs) | None => (-1)%Z end.
+Proof. exact go_utf16Length_spec. Qed.
+Print Assumptions C03_utf16Length_decides_utf8.
 
-(* The encoder model's output is token-legal for every value whose strings are strict UTF-8 or
-   not UTF-8 at all (structurally invalid strings go out as bytes), in both modes, for every heap. *)
+(* hence every Go string, valid UTF-8 or not, is emitted as a token the independent reader accepts *)
+Theorem C03_string_tags_only_utf8 : forall simple st s st' w,
+  enc_string simple st s = (st', w) -> tok_ok w = true.
+Proof. exact string_tags_only_utf8. Qed.
+Print Assumptions C03_string_tags_only_utf8.
+
+(* The encoder model's output is token-legal for every value (oracle premises [gval_ok] on float/uuid
+   texts and clock fields only; no premise on string contents), in both modes, for every heap. *)
 Theorem C03_encoder_output_token_legal : forall simple hp fuel st v st' w,
   gval_ok v = true -> heap_ok hp = true ->
   enc simple hp fuel st v = EOk st' w -> tok_ok w = true.
